@@ -380,7 +380,8 @@ class FmtStr:
         """
         if len(new_str) == 0 and (end is None or end == start):
             return self
-        new_fs = new_str if isinstance(new_str, FmtStr) else fmtstr(new_str)
+        # a plain str is spliced in verbatim and unformatted (its len() above counts its characters), like the str operand of +
+        new_fs = new_str if isinstance(new_str, FmtStr) else FmtStr(Chunk(new_str))
         new_components = []
         inserted = False
         if end is None:
